@@ -355,6 +355,12 @@ class ProcessSnapshot(Stream):
             fails.append(("C13/not-restored/warnings.showwarning", {"members": cw}))
         if members:
             fails.append(("C13/not-restored/member", {"members": members}))
+        script_edits_path = bool({"syspath-pop0", "syspath-reset", "syspath-src"} & set(spec.get("prelude", []) + spec.get("postlude", [])))
+        if "sys.path" in d and script_edits_path:
+            # what a script itself pops from sys.path is its own doing; only entries the analyser added count
+            d["sys.path"] = {"added": d["sys.path"]["added"], "lost": []}
+            if not d["sys.path"]["added"]:
+                del d["sys.path"]
         for k in ("cwd", "meta_path", "path_hooks", "sys.path", "argv", "modules_left", "modules_lost"):
             if k in d:
                 fails.append(("C13/not-restored/" + k, {k: d[k]}))
